@@ -13,7 +13,33 @@ def load_check(prop):
     return importlib.import_module(f"mc.checks.{prop.lower()}")
 
 
+def _sweep_scratch():
+    """Remove scratch directories of this run's (now dead) worker processes and of any earlier dead run."""
+    import shutil
+
+    from .common import scratch_root
+
+    root = scratch_root()
+    try:
+        names = os.listdir(root)
+    except OSError:
+        return
+    for name in names:
+        if not name.startswith("verif-pymys-"):
+            continue
+        pid = name.rsplit("-", 1)[1]
+        if pid.isdigit() and (int(pid) == os.getpid() or not os.path.isdir(f"/proc/{pid}")):
+            shutil.rmtree(os.path.join(root, name), ignore_errors=True)
+
+
 def main(argv=None):
+    try:
+        return _main(argv)
+    finally:
+        _sweep_scratch()
+
+
+def _main(argv=None):
     parser = argparse.ArgumentParser(prog="check")
     parser.add_argument("prop", nargs="?")
     parser.add_argument("--tier", default=os.environ.get("VERIF_TIER", "quick"), choices=["quick", "thorough"])
